@@ -250,6 +250,10 @@ def step(variant, hist, op):
     except CaseTimeout:
         return {'key': f'timeout @ fibonacci : op {op[0]} on {variant[0]}-heap did not return in {STEP_TIMEOUT}s',
                 'detail': 'livelock inside one heap operation'}, None
+    except AssertionError as e:
+        if _site(e) == 'harness':       # raised by the harness walk: the forest itself is malformed
+            return {'key': classify(variant, op, 'structure'), 'detail': str(e)}, None
+        return {'key': classify(variant, op, None, e), 'detail': repr(e)}, None
     except Exception as e:  # noqa
         return {'key': classify(variant, op, None, e), 'detail': repr(e)}, None
     if bad:
